@@ -189,8 +189,52 @@ pub fn c10(tier: Tier) -> ! {
             run.sample(json!({"group": cases[i].group, "shape": cases[i].shape_args, "potential": cases[i].potential, "replications": format!("1..{}", cases[i].kmax)}));
         }
     }
+    // histories of the output file: every ordered pair (A, B) of five commands run one after the
+    // other with the same --outfile; what B leaves behind must be what B writes to a fresh name
+    let cmds: Vec<CliArgs> = vec![
+        CliArgs { group: "p2gg".into(), shape: vec!["trimer".into()], potential: Some("Hard".into()), replications: 2, opt: vec!["--steps".into(), "40".into(), "--inner-steps".into(), "20".into()] },
+        CliArgs { group: "p1".into(), shape: vec!["circle".into()], potential: Some("Hard".into()), replications: 1, opt: vec!["--steps".into(), "40".into(), "--inner-steps".into(), "20".into()] },
+        CliArgs { group: "p2".into(), shape: vec!["polygon".into(), "--sides".into(), "4".into()], potential: Some("Hard".into()), replications: 1, opt: vec!["--steps".into(), "40".into(), "--inner-steps".into(), "20".into()] },
+        CliArgs { group: "p1m1".into(), shape: vec!["trimer".into()], potential: Some("LJ".into()), replications: 1, opt: vec!["--steps".into(), "40".into(), "--inner-steps".into(), "20".into()] },
+        CliArgs { group: "p1".into(), shape: vec!["circle".into()], potential: Some("LJ".into()), replications: 1, opt: vec!["--steps".into(), "20".into(), "--inner-steps".into(), "20".into()] },
+    ];
+    let fresh: Vec<cli::CliResult> = par_map(&cmds, |_, c| cli::run_cli(&c.to_vec(), &[]));
+    let mut pairs: Vec<(usize, usize)> = vec![];
+    for a in 0..cmds.len() {
+        for b in 0..cmds.len() {
+            pairs.push((a, b));
+        }
+    }
+    let shared = par_map(&pairs, |_, &(a, b)| {
+        let out = cli::fresh_out();
+        let first = cli::run_cli_at(out.clone(), &cmds[a].to_vec(), &[], false);
+        let second = cli::run_cli_at(out, &cmds[b].to_vec(), &[], true);
+        (first.status, second)
+    });
+    let mut shared_n = 0u64;
+    for (i, (st1, second)) in shared.into_iter().enumerate() {
+        let (a, b) = pairs[i];
+        shared_n += 1;
+        let case = json!({"engine": "cli-pair", "first": cmds[a].json(), "second": cmds[b].json()});
+        if st1 != Some(0) || fresh[b].status != Some(0) {
+            run.fail(None, &format!("exit status {:?} / {:?} of runs that must succeed", st1, fresh[b].status), case);
+            continue;
+        }
+        if second.status != Some(0) {
+            run.fail(None, &format!("a run whose --outfile already exists ends with status {:?}: {}", second.status, second.stderr.chars().take(200).collect::<String>()), case);
+            continue;
+        }
+        if second.json != fresh[b].json {
+            let parses = second.json.as_ref().map(|t| serde_json::from_str::<Value>(t).is_ok()).unwrap_or(false);
+            run.fail(None, &format!("run over an existing --outfile (left by another run): the .json is not what the same command writes to a fresh name ({} vs {} bytes, parses: {})", second.json.as_ref().map(|t| t.len()).unwrap_or(0), fresh[b].json.as_ref().map(|t| t.len()).unwrap_or(0), parses), case.clone());
+        }
+        if second.svg != fresh[b].svg {
+            run.fail(None, "run over an existing --outfile (left by another run): the .svg is not what the same command writes to a fresh name", case);
+        }
+    }
+    run.set("ordered_command_pairs_sharing_an_outfile", shared_n);
     cli::cleanup();
-    run.set("evaluations", runs);
+    run.set("evaluations", runs + shared_n);
     run.set("distinct_nontrivial", written);
     run.set("argument_combinations", cases.len() as u64);
     run.set("structures_written_and_checked", written);
@@ -320,6 +364,12 @@ fn special_doubles(tier: Tier) -> Vec<f64> {
         v.push(1. / k as f64);
     }
     v.push(0.38813333333333333);
+    // doubles that are exactly representable in single precision without being short decimals
+    for k in 1..=tier.pick(60, 400) {
+        v.push(f64::from((0.1 * k as f64) as f32));
+        v.push(f64::from((k as f64 / 3.) as f32));
+        v.push(f64::from((k as f64 * PI / 180.) as f32));
+    }
     v
 }
 
